@@ -31,6 +31,13 @@ def run (args : List String) : String :=
         | none => "err"
       | _ => "bad-op"
     | _, _ => "bad-op"
+  | ["signwith", c, d, k, h] =>
+    match curve? c, parseBytes? d, parseBytes? k, parseBytes? h with
+    | some S, some d, some k, some h =>
+      match signWith S (beNat d) (beNat k) h with
+      | some sig => "ok " ++ toHex sig
+      | none => "err"
+    | _, _, _, _ => "bad-op"
   | ["verify", c, pk, h, sig] =>
     match curve? c, parseBytes? pk, parseBytes? h, parseBytes? sig with
     | some S, some pk, some h, some sig =>
